@@ -50,6 +50,7 @@ type Engine struct {
 	scalarTags  map[int64]Sort
 	relatedCache2 map[string]bool
 	standaloneList []*types.Named
+	memOffCache map[types.Type][]int64
 	autoPureCache map[*ssa.Function]bool
 }
 
@@ -76,7 +77,7 @@ func Load(repo, rel string) (*Engine, error) {
 	e := &Engine{Prog: prog, Pkg: spkgs[0], TPkg: pkgs[0].Types, PPkg: pkgs[0], Fset: pkgs[0].Fset, Dir: dir,
 		Contracts: map[string]*Contract{}, layouts: map[types.Type][]Sort{}, typeIDs: map[string]int64{}, typeNames: map[int64]string{},
 		globals: map[*ssa.Global]int64{}, funcs: map[*ssa.Function]int64{}, firstDynRef: 1 << 24,
-		roGlobals: map[*ssa.Global]bool{}, cellable: map[*ssa.Alloc]bool{}, relatedCache: map[[2]*types.Named]bool{}, scalarTags: map[int64]Sort{}, relatedCache2: map[string]bool{}, autoPureCache: map[*ssa.Function]bool{}, funcsByKey: map[string]*ssa.Function{}, ghostStable: map[string]bool{}}
+		roGlobals: map[*ssa.Global]bool{}, cellable: map[*ssa.Alloc]bool{}, relatedCache: map[[2]*types.Named]bool{}, scalarTags: map[int64]Sort{}, relatedCache2: map[string]bool{}, memOffCache: map[types.Type][]int64{}, autoPureCache: map[*ssa.Function]bool{}, funcsByKey: map[string]*ssa.Function{}, ghostStable: map[string]bool{}}
 	// contracts
 	files, _ := filepath.Glob(filepath.Join(dir, "zz_verif_contracts*.go"))
 	sort.Strings(files)
